@@ -20,6 +20,8 @@ pub struct LGen<'c> {
     pub main_returns_i32: bool,
     /// observe leaves through `ov_<ty>(x) -> i32` instead of the unit functions `out_<ty>(x)`
     pub value_returning_outs: bool,
+    /// leaves are literals only (constant initialisers must not read inputs)
+    literal_only: bool,
 }
 
 const SCALARS: [Ty; 13] = [
@@ -44,7 +46,7 @@ fn short(t: &Ty) -> String {
 
 impl<'c> LGen<'c> {
     pub fn new(stream: &'c [u8], allow_str: bool) -> Self {
-        LGen { c: Choices::new(stream), prog: Program::default(), next: 0, allow_str, allow_lists: true, main_returns_i32: false, value_returning_outs: false }
+        LGen { c: Choices::new(stream), prog: Program::default(), next: 0, allow_str, allow_lists: true, main_returns_i32: false, value_returning_outs: false, literal_only: false }
     }
 
     fn fresh(&mut self, p: &str) -> String {
@@ -181,7 +183,7 @@ impl<'c> LGen<'c> {
     }
 
     fn leaf(&mut self, t: &Ty) -> Expr {
-        if self.c.chance(150) {
+        if !self.literal_only && self.c.chance(150) {
             let k = self.c.below(6);
             let kl = Expr::Lit(Lit { v: V::Int(IntTy::U32, k as i128), text: format!("{k}") });
             Expr::Host(format!("in_{}", short(t)), vec![kl])
@@ -323,7 +325,7 @@ impl<'c> LGen<'c> {
             };
             stmts.push(Stmt::Expr(Expr::Assign(Place { var: "w".into(), fields: p }, Box::new(val))));
         }
-        let mut routes: Vec<u32> = (0..10).collect();
+        let mut routes: Vec<u32> = (0..11).collect();
         // a random subset / order of the observation routes
         for i in (1..routes.len()).rev() {
             let j = self.c.below(i + 1);
@@ -391,6 +393,35 @@ impl<'c> LGen<'c> {
                         Expr::Record(None, vec![("p".into(), Expr::Var("v".into())), ("k".into(), k), ("q".into(), Expr::Var("v2".into()))]),
                     ));
                     self.dump(Expr::Var(p), &pt, &mut stmts);
+                }
+                10 => {
+                    // a script constant of the type: copies of it are modified, the constant itself never changes
+                    // (main is called several times on one package)
+                    self.literal_only = true;
+                    let mut sh = Vec::new();
+                    let init = self.build(&t, &mut sh, &mut None);
+                    self.literal_only = false;
+                    self.prog.consts.push(ConstDecl { name: "ZK".into(), ty: t.clone(), init });
+                    let cvar = self.fresh("c");
+                    stmts.push(Stmt::Let(cvar.clone(), None, Expr::Var("ZK".into())));
+                    let mut ps = Vec::new();
+                    self.leaf_paths(&t, vec![], &mut ps);
+                    if !ps.is_empty() {
+                        for _ in 0..(1 + self.c.below(2)) {
+                            let (p, pt) = ps[self.c.below(ps.len())].clone();
+                            let val = if matches!(pt, Ty::Enum(..) | Ty::Opt(_)) {
+                                let mut s2 = Vec::new();
+                                self.build(&pt, &mut s2, &mut None)
+                            } else {
+                                self.leaf(&pt)
+                            };
+                            stmts.push(Stmt::Expr(Expr::Assign(Place { var: cvar.clone(), fields: p }, Box::new(val))));
+                        }
+                    } else {
+                        stmts.push(Stmt::Expr(Expr::Assign(Place { var: cvar.clone(), fields: vec![] }, Box::new(Expr::Var("v".into())))));
+                    }
+                    self.dump(Expr::Var(cvar), &t, &mut stmts);
+                    self.dump(Expr::Var("ZK".into()), &t, &mut stmts);
                 }
                 9 => {
                     // two un-annotated anonymous records with the same fields written in different orders
